@@ -111,7 +111,7 @@ class TrFD(TrDyn):
                 k = e.slice
                 if isinstance(k, ast.Name) and env.get(k.id) == "fname":
                     t = self.tmp()
-                    return [("bind", t, "Py.clsByField S E c %s" % nm(k.id))], t, "cls"
+                    return [("bind", t, "Py.fdClsByField S E c %s" % nm(k.id))], t, "cls"
                 if isinstance(k, ast.JoinedStr) and len(k.values) == 2 and isinstance(k.values[0], ast.FormattedValue) \
                         and isinstance(k.values[0].value, ast.Name) and env.get(k.values[0].value.id) == "fname" \
                         and k.values[0].conversion == -1 and k.values[0].format_spec is None \
@@ -130,7 +130,7 @@ class TrFD(TrDyn):
                 b1, a, ta = self.expr(e.left, env)
                 if ta == "cls" and not b1 and isinstance(right, ast.Name) and right.id not in env and right.id in ("datetime", "timedelta"):
                     self.need(right.id)
-                    txt = "(Py.%s %s)" % ("clsIsDatetime" if right.id == "datetime" else "clsIsTimedelta", a)
+                    txt = "(Py.%s %s)" % ("fdClsIsDatetime" if right.id == "datetime" else "fdClsIsTimedelta", a)
                     return [], txt if isinstance(op, ast.Eq) else "(!%s)" % txt, "bool"
                 if ta == "ptype":
                     b2, b, tb = self.expr(right, env)
